@@ -169,6 +169,8 @@ def arg_tables(arg, simplify=True):
     t.sort()
     if simplify:
         t.simplify()
+    if arg.get("renumber"):
+        t = renumber_nodes(t.tree_sequence(), arg["renumber"])[0].dump_tables()
     return t
 
 
@@ -233,7 +235,7 @@ DEEP = THOROUGH + [(4, 3, 2), (6, 1, 0)]
 class Space:
     """A union of universes with summed generator statistics."""
 
-    def __init__(self, specs, simplify=True, allow_mm=True):
+    def __init__(self, specs, simplify=True, allow_mm=True, renumber=()):
         self.specs = list(specs)
         self.states = 0
         self.transitions = 0
@@ -248,17 +250,24 @@ class Space:
                 if k not in seen:
                     seen.add(k)
                     self.args.append(a)
+                    if a["nn"] - a["n"] > 1:
+                        # node-numbering decorator: same ARG, non-sample ids in another order
+                        for how in renumber:
+                            b = dict(a)
+                            b["renumber"] = how
+                            b["id"] = a["id"] + "~" + how
+                            self.args.append(b)
 
     def describe(self):
         return "U(n,L,R) for " + ",".join(f"({n},{L},{R})" for n, L, R in self.specs)
 
 
-def space(tier, simplify=True):
-    return Space(QUICK if tier == "quick" else THOROUGH, simplify=simplify)
+def space(tier, simplify=True, renumber=()):
+    return Space(QUICK if tier == "quick" else THOROUGH, simplify=simplify, renumber=renumber)
 
 
-def single_trees(max_n):
-    return Space([(n, 1, 0) for n in range(2, max_n + 1)])
+def single_trees(max_n, renumber=()):
+    return Space([(n, 1, 0) for n in range(2, max_n + 1)], renumber=renumber)
 
 
 # ---------------------------------------------------------------- decorators
@@ -346,6 +355,34 @@ def historical_leaf(ts, leaf, age):
     t.nodes.time = tm
     t.mutations.time = np.full(t.mutations.num_rows, tskit.UNKNOWN_TIME)
     return t.tree_sequence()
+
+
+def renumber_nodes(ts, how="reverse"):
+    """Node-numbering decorator: keep sample ids, renumber the non-sample nodes.
+    how = 'reverse' (oldest internal node gets the lowest internal id, as tsinfer does),
+    'rotate' (cyclic shift by one) or an explicit list giving, for each new internal slot,
+    the old node id.  Returns (ts, old_id_of_new)."""
+    N = ts.num_nodes
+    smp = [u for u in range(N) if ts.node(u).is_sample() and ts.nodes_time[u] == 0 and u not in set(ts.edges_parent)]
+    inner = [u for u in range(N) if u not in set(smp)]
+    if how == "reverse":
+        new_inner = inner[::-1]
+    elif how == "rotate":
+        new_inner = inner[1:] + inner[:1]
+    else:
+        new_inner = list(how)
+        assert sorted(new_inner) == inner
+    order = []
+    it = iter(new_inner)
+    keep = set(smp)
+    for u in range(N):
+        order.append(u if u in keep else next(it))
+    t = ts.dump_tables()
+    t.subset(np.array(order, dtype=np.int32), record_provenance=False, reorder_populations=False, remove_unreferenced=False)
+    t.sort()
+    t.build_index()
+    t.compute_mutation_parents()
+    return t.tree_sequence(), order
 
 
 def ts_to_json(ts):
